@@ -95,11 +95,6 @@ end committor
 
 /-! ### discrete maximum principle -/
 
-/-- the absorbing set `A` can be reached from `i` along positive-probability steps inside `0…n-1` -/
-inductive Reach (n : Nat) (T : Mat) (A : List Nat) : Nat → Prop
-  | base {i : Nat} : i ∈ A → Reach n T A i
-  | step {i j : Nat} : j < n → 0 < T i j → Reach n T A j → Reach n T A i
-
 theorem harmonic_le {n : Nat} {T : Mat} {A : List Nat} {q : Vec} {c : Rat}
     (hnn : ∀ i, i < n → ∀ j, j < n → 0 ≤ T i j)
     (hrow : ∀ i, i < n → ∑ j ∈ range n, T i j = 1)
